@@ -980,11 +980,22 @@ class Netlist(NetlistOpsMixin, NetlistMixin, NetlistSimplifyMixin):
             return self.replace_switches(t)
 
         cct = self
+        before = None
+        tprev = 0
         for m, time in enumerate(times):
             if time > t:
                 break
-            before = cct.replace_switches_before(time)
-            cct = cct.replace_switches(time).initialize(before, time)
+            if before is None:
+                before = self.replace_switches_before(time)
+                T = time
+            else:
+                # The previous initial value problem measures time
+                # from the previous switching instant.
+                before = cct
+                T = time - tprev
+            cct = self.replace_switches(time).initialize(before, T)
+            tprev = time
+        time = tprev
 
         if time != 0:
             warn('Note, the time t is relative to %s' % time)
